@@ -87,8 +87,31 @@ fn replay_c19(part: &str, input: &Value) -> Option<Result<Result<(), Viol>, Stri
     mbchecks::replay_spec(&mbchecks::C19, part, input)
 }
 
+fn run_c02(ctx: &RunCtx) -> Vec<PartOutcome> {
+    mbchecks::run_spec(ctx, &mbchecks::C02, 8000, 120000)
+}
+fn replay_c02(part: &str, input: &Value) -> Option<Result<Result<(), Viol>, String>> {
+    mbchecks::replay_spec(&mbchecks::C02, part, input)
+}
+
 pub fn all() -> Vec<CheckDef> {
     vec![
+        CheckDef {
+            id: "C02",
+            run: run_c02,
+            replay: replay_c02,
+            rule: "3-6 connections contending for 2-3 nicknames: per-connection PASS/NICK/USER/CAP lines, gated verbs, QUIT and closes at every stage of registration, interleaved with NICK changes, JOIN/PRIVMSG/MODE/KICK/QUIT of registered users; optional server password / configured user with mask; oracle = ownership ledger of the model (one owner per nick, 433 on contention), every relayed line attributed to the acting connection's own user, probes (ISON/WHOIS/NAMES/WHO/LUSERS) unchanged by refused/unfinished connections however they end, owners stay alive; non-trivial = a nick claimed on an unregistered connection and registered by another (433 at completion) or >=2 registrations with an in-use refusal; distinct by capped outcome counts",
+            level: "exploration",
+            assumptions: SIM_ASSUMPTIONS,
+        },
+        CheckDef {
+            id: "C03",
+            run: mbchecks::run_c03,
+            replay: mbchecks::replay_c03,
+            rule: "8 configuration classes (no password, server password, configured user with/without password and with matching/non-matching mask) x random sequences (<= 24 lines) of PASS right/wrong/other, NICK, USER, CAP LS/REQ/LIST/END, AUTHENTICATE, QUIT and 39 well-formed gated verbs on fresh connections, plus ALL sequences of length <= 4/5 over an 8-symbol alphabet per class; oracle = reference registration machine: gated verb before completion => exactly 451 and observer probes unchanged; completion conditions; 464 + close + no user on wrong/missing password; non-trivial = sequence reaching a password/mask decision or placing >= 2 gated verbs; distinct by (gated count, outcomes) / (class, sequence)",
+            level: "exploration",
+            assumptions: SIM_ASSUMPTIONS,
+        },
         CheckDef {
             id: "C04",
             run: c04::run,
